@@ -119,7 +119,13 @@ fn end_badly(rng: &mut Rng, ops: &mut Vec<Op>, acs: &mut [gen::Ac]) {
     if rng.chance(0.85) {
         let mut b = h[..cut].to_vec();
         if rng.chance(0.2) { b.insert(0, b'*'); }
-        ops.push(Op::Data { dt_us: rng.range(0, 1_000_000), bytes: Bytes(b), tag: format!("partial:cut{}", cut) });
+        // the partial line often arrives in the same read as the complete lines before it
+        let merged = rng.chance(0.4) && matches!(ops.last(), Some(Op::Data { .. }));
+        if merged {
+            if let Some(Op::Data { bytes, tag, .. }) = ops.last_mut() { bytes.0.extend_from_slice(&b); tag.push_str("+partial"); }
+        } else {
+            ops.push(Op::Data { dt_us: rng.range(0, 1_000_000), bytes: Bytes(b), tag: format!("partial:cut{}", cut) });
+        }
     }
     match rng.below(4) {
         0 => ops.push(Op::Eof { dt_us: rng.range(0, 500_000) }),
